@@ -492,7 +492,21 @@ class SimKernel(object):
                 self._reap(p, 'waitid')
             return (p.pid, p.wstatus)
         if not (options & os.WNOHANG):
-            raise RuntimeError('blocking waitid on a live process')
+            # the caller - the whole event loop - sleeps in the kernel until
+            # the process can be waited for (modelled as 1 ms naps so that
+            # the blocked time is accounted for and an endless wait is
+            # recognised like the reap spin)
+            self.waits.append((self.sim.now, ident, 0, 0))
+            while p.state not in ('zombie', 'reaped'):
+                if self.spin_broken:
+                    raise ChildProcessError(errno.ECHILD,
+                                            'No child processes')
+                self.sim.sleep(0.001)
+            if p.state == 'reaped':
+                raise ChildProcessError(errno.ECHILD, 'No child processes')
+            if not (options & os.WNOWAIT):
+                self._reap(p, 'waitid')
+            return (p.pid, p.wstatus)
         return None
 
     def _reap(self, p, by):
